@@ -4,13 +4,15 @@ sys.path.insert(0, os.path.dirname(os.path.dirname(os.path.abspath(__file__))))
 from ofxv import common as C
 ALL = ["C%02d" % i for i in range(1, 21)]
 checks, na = [], []
+# properties whose check has been validated on the unchanged tree by the coordinator (one id per line)
+CLAIMED = set(open(os.path.join(C.VERIF, "tools/ofxv/claimed.txt")).read().split())
 for pid in ALL:
     path = os.path.join(C.VERIF, "tools/ofxv/props", pid.lower() + ".py")
     m = None
     if os.path.exists(path):
         mod = importlib.import_module("ofxv.props." + pid.lower())
         m = getattr(mod, "MANIFEST", None)
-    if not m:
+    if not m or pid not in CLAIMED:
         na.append({"property_id": pid, "reason": "check not yet built (work in progress; see DESIGN.md section 6)"})
         continue
     checks.append({
